@@ -10,18 +10,28 @@ W=/tmp/mut/$ID; O=/tmp/mut/out/$ID; S=/verif/seeded/$NAME
 export CARGO_NET_OFFLINE=true CARGO_TARGET_DIR=$W/target
 mkdir -p $S; LOG=$S/confirm.log; : > $LOG
 DEMO=$(ls $O/*.rs | head -1); DEMON=$(basename $DEMO .rs)
-cd $W && git checkout -q -- src && git apply $O/patch.diff && cp $DEMO tests/$DEMON.rs
-echo "== baseline with change" >> $LOG
-cargo test --workspace --no-fail-fast --offline -- --skip "$DEMON" 2>&1 | grep -E "^test result|FAILED|failed" >> $LOG
-# the demo is itself an integration test; run the baseline excluding it
-BASE_OK=$(cargo test --offline --lib --test ristretto --doc 2>&1 | grep -c "test result: ok")
+if [ "${RECHECK:-0}" = "1" ] && [ -f $S/meta.json ]; then
+  BASE_OK=$(python3 -c "import json;print(json.load(open('$S/meta.json'))['baseline_ok_groups'])")
+  WITH=$(python3 -c "import json;print(json.load(open('$S/meta.json'))['demo_rc_with_change'])")
+  WITHOUT=$(python3 -c "import json;print(json.load(open('$S/meta.json'))['demo_rc_without_change'])")
+else
+cd $W && git checkout -q -- src && git apply $O/patch.diff && rm -f tests/$DEMON.rs
+echo "== baseline with change (demo absent)" >> $LOG
+cargo test --workspace --no-fail-fast --offline > $S/baseline_with.log 2>&1
+grep -E "^test result|FAILED|failed" $S/baseline_with.log >> $LOG
+BASE_OK=$(grep -c "^test result: ok" $S/baseline_with.log)
+BASE_BAD=$(grep -c "^test result: FAILED" $S/baseline_with.log)
+[ "$BASE_BAD" != "0" ] && BASE_OK=0
 echo "baseline ok groups: $BASE_OK" >> $LOG
+cp $DEMO tests/$DEMON.rs
 cargo test --offline --test $DEMON > $S/demo_with.log 2>&1; WITH=$?
 git checkout -q -- src
 cargo test --offline --test $DEMON > $S/demo_without.log 2>&1; WITHOUT=$?
 echo "demo with change rc=$WITH, without rc=$WITHOUT" >> $LOG
 cp $O/patch.diff $S/patch.diff; cp $DEMO $S/; [ -f $O/notes.md ] && cp $O/notes.md $S/notes.md
+fi
 DET=""
+unset CARGO_TARGET_DIR
 mkdir -p /verif/.build; exec 9>/verif/.build/repo.lock; flock 9; export VERIF_NOLOCK=1
 if git -C /repo diff --quiet; then
   git -C /repo apply $S/patch.diff
@@ -39,7 +49,7 @@ python3 - <<PY
 import json
 json.dump({"property":"$PROP","worktree_id":"$ID","baseline_ok_groups":$BASE_OK,"demo_rc_with_change":$WITH,"demo_rc_without_change":$WITHOUT,
  "confirmed": ($BASE_OK==3 and $WITH!=0 and $WITHOUT==0), "checks":"$DET".split(),
- "ran":["cargo test --offline --lib --test ristretto --doc (with change)","cargo test --offline --test $DEMON (with / without change)","./check <id> --tier quick with the patch applied to /repo"],
+ "ran":["cargo test --workspace --no-fail-fast --offline (with change, 26+4+1 tests)","cargo test --offline --test $DEMON (with / without change)","./check <id> --tier quick with the patch applied to /repo"],
  "needs":"see notes.md"}, open("$S/meta.json","w"), indent=1)
 PY
 tail -n +1 $S/meta.json | head -20
